@@ -318,3 +318,45 @@ func ghostEntryKey(s *KeyedStateStore, key []byte) []byte { _, d := s.decodeKey(
 //@   loop 0:
 //@     invariant len(events) == len(batchEvents) && forall(0, idx_, func(i int) bool { return events[i] == batchEvents[i].event && has(keyStateMap, string(batchEvents[i].key)) })
 //@     invariant forall(func(k string) bool { return has(keyStateMap, k) ==> keyStateMap[k] != nil && string(keyStateMap[k].Key) == k })
+
+// ---- composite watermark (C11). An operator's effective watermark is the minimum of the latest
+// watermarks of ALL its upstream source runners; a runner that has not reported yet counts as
+// the epoch (NewTimerRegistry enters every runner with time.Unix(0, 0)), and no timer later than
+// that minimum is handed out.
+//@ func NewTimerRegistry
+//@   property C11
+//@   ensures result != nil && result.store == store
+//@   ensures forall(0, len(srIDs), func(i int) bool { return has(result.upstreams, srIDs[i]) && result.upstreams[srIDs[i]] == time.Unix(0, 0) })
+//@   ensures forall(func(k string) bool { return has(result.upstreams, k) ==> exists(0, len(srIDs), func(i int) bool { return srIDs[i] == k }) })
+//@   loop 0:
+//@     invariant forall(0, idx_, func(i int) bool { return has(upstreams, srIDs[i]) && upstreams[srIDs[i]] == time.Unix(0, 0) })
+//@     invariant forall(func(k string) bool { return has(upstreams, k) ==> exists(0, idx_, func(i int) bool { return srIDs[i] == k }) })
+
+// AdvanceWatermark: only the sender's entry changes; the cached watermark is a lower bound of
+// every upstream entry (so an upstream still at the epoch holds it at the epoch) and is one of them.
+//@ func TimerRegistry.AdvanceWatermark
+//@   property C11
+//@   requires wm != nil
+//@   modifies r.upstreams, r.watermark, KeyGroupPriorityQueue.*
+//@   ensures has(r.upstreams, senderID)
+//@   ensures forall(func(k string) bool { return k != senderID ==> has(r.upstreams, k) == old(has(r.upstreams, k)) && r.upstreams[k] == old(r.upstreams[k]) })
+//@   ensures forall(func(k string) bool { return has(r.upstreams, k) ==> !r.watermark.After(r.upstreams[k]) })
+//@   ensures exists(func(k string) bool { return has(r.upstreams, k) && r.watermark == r.upstreams[k] })
+
+// The timer store behind the registry is decided under C10 (KeyGroupPriorityQueue); here only its
+// frame matters: it never touches the registry's upstream table or cached watermark.
+//@ func TimerStore.GetEarliest
+//@   property C11
+//@   trusted
+//@   modifies KeyGroupPriorityQueue.*
+//@ func TimerStore.Delete
+//@   property C11
+//@   trusted
+//@   modifies KeyGroupPriorityQueue.*
+
+// The iterator hands out a timer only if it is not later than the composite watermark computed above.
+//@ func TimerRegistry.AdvanceWatermark$0
+//@   property C11
+//@   nosafety
+//@   atcall yield: !arg1.After(compositeWatermark)
+//@   order yield after Delete
